@@ -303,6 +303,9 @@ func genHist(profile string, n int, r *Rng, emit func(Case)) {
 				if r.Bool() {
 					num++
 				}
+				if r.Intn(8) == 0 {
+					num = den // the radicand 1 (also written k/k)
+				}
 			}
 			raw, rep = []int{num, den}, nil
 			g.length = -1
@@ -506,6 +509,48 @@ func genLongScans(tier string, r *Rng, emit func(Case)) {
 	}
 }
 
+// genEmptyViews: views of an endless counted Number whose start lies far beyond their end: every read of such a view
+// is empty, and none of them consults anything (neither the far start nor the end is ever reached).
+func genEmptyViews(tier string, r *Rng, emit func(Case)) {
+	n := 9
+	if tier == "thorough" {
+		n = 90
+	}
+	for i := 0; i < n; i++ {
+		ver := allVers[i%3]
+		S := r.Pick([]int{1500, 5000, 20000})
+		E := r.Pick([]int{1, 10, 100, 101})
+		var ops []toks
+		if r.Bool() {
+			ops = append(ops, toks{"WS", "0", itoa(S)}, toks{"WE", "1", itoa(E)})
+		} else {
+			ops = append(ops, toks{"WE", "0", itoa(E)}, toks{"WS", "1", itoa(S)})
+		}
+		ops = append(ops, toks{"CNT"})
+		switch r.Intn(4) {
+		case 0:
+			ops = append(ops, toks{"RUN", "2", "A", "-1"})
+		case 1:
+			ops = append(ops, toks{"RUN", "2", "V", "5"})
+		case 2:
+			ops = append(ops, toks{"NEW", "2", "F"}, toks{"NX", "0"}, toks{"NX", "0"})
+		default:
+			ops = append(ops, toks{"STR", "2"})
+		}
+		ops = append(ops, toks{"CNT"})
+		var t toks
+		t.s("G")
+		t.ints(nil)
+		t.ints(randDigits(r, r.Range(1, 5)))
+		t.i(1)
+		t.i(len(ops))
+		for _, o := range ops {
+			t = append(t, o...)
+		}
+		emit(Case{Ver: ver, Op: "Hist", Args: t})
+	}
+}
+
 func init() {
 	ops := map[string]runner{"Hist": runHist}
 	register("C04", func(tier string, r *Rng, emit func(Case)) {
@@ -556,6 +601,7 @@ func init() {
 		}
 		genHist("count", n, r, emit)
 		genLongScans(tier, r, emit)
+		genEmptyViews(tier, r, emit)
 		// printing to a failing writer must not consult the digits of later ranges either (as C12)
 		genC12Far(tier, r, emit)
 		genPrintLazy(tier, r, emit)
